@@ -545,34 +545,31 @@ pub(crate) fn parse_const(c: &ItemConst) -> Result<RustItem, ParseError> {
 }
 
 fn parse_const_expr(e: &Expr) -> Result<RustConstExpr, ParseError> {
-    struct ExprLitVisitor(pub Option<Result<RustConstExpr, ParseError>>);
-    impl Visit<'_> for ExprLitVisitor {
-        fn visit_expr_lit(&mut self, el: &ExprLit) {
-            if self.0.is_some() {
-                // should we throw an error instead of silently ignoring a second literal?
-                // or would this create false positives?
-                return;
-            }
-            let check_literal_type = || {
-                Ok(match &el.lit {
-                    Lit::Int(lit_int) => {
-                        let int: i128 = lit_int
-                            .base10_parse()
-                            .map_err(|_| ParseError::RustConstTypeInvalid)?;
-                        RustConstExpr::Int(int)
-                    }
-                    _ => return Err(ParseError::RustConstTypeInvalid),
-                })
-            };
-
-            self.0.replace(check_literal_type());
+    // Only an integer literal, optionally negated and/or parenthesised, has a value we can
+    // carry over. Anything else (`1 + 2`, `f(7)`, …) must not be reduced to the first literal
+    // that happens to occur in it.
+    fn int_value(e: &Expr) -> Result<i128, ParseError> {
+        match e {
+            Expr::Lit(ExprLit {
+                lit: Lit::Int(lit_int),
+                ..
+            }) => lit_int
+                .base10_parse()
+                .map_err(|_| ParseError::RustConstTypeInvalid),
+            Expr::Lit(_) => Err(ParseError::RustConstTypeInvalid),
+            Expr::Unary(syn::ExprUnary {
+                op: syn::UnOp::Neg(_),
+                expr,
+                ..
+            }) => int_value(expr)?
+                .checked_neg()
+                .ok_or(ParseError::RustConstTypeInvalid),
+            Expr::Paren(paren) => int_value(&paren.expr),
+            Expr::Group(group) => int_value(&group.expr),
+            _ => Err(ParseError::RustConstExprInvalid),
         }
     }
-    let mut expr_visitor = ExprLitVisitor(None);
-    syn::visit::visit_expr(&mut expr_visitor, e);
-    expr_visitor
-        .0
-        .unwrap_or(Err(ParseError::RustConstTypeInvalid))
+    int_value(e).map(RustConstExpr::Int)
 }
 
 // Helpers
